@@ -107,7 +107,7 @@ def rand_mask(rng, E_block, symmetric=True):
     return M
 
 
-def offset_case(rng, *, hermitian=True, fmt=None, max_params=2, N=3):
+def offset_case(rng, *, hermitian=True, fmt=None, max_params=2, N=3, mode=None):
     """One block whose levels have a large common offset and unit spacings (all float operations stay
     exact: differences are +-1, +-2). Exercises tolerance handling that is absolute in the library:
     a relative tolerance would treat these levels as degenerate."""
@@ -120,7 +120,7 @@ def offset_case(rng, *, hermitian=True, fmt=None, max_params=2, N=3):
     E = [G(Fr(off + v)) for v in levels]
     nparam = rng.randint(1, max_params)
     sub = [0] * n
-    mode = rng.random()
+    mode = rng.random() if mode is None else mode
     if mode < 0.4:
         fully = None
     elif mode < 0.7:
@@ -133,6 +133,55 @@ def offset_case(rng, *, hermitian=True, fmt=None, max_params=2, N=3):
         if sum(o) == 1 or rng.random() < 0.25:
             H[key(o)] = gq.enc(rand_matrix(rng, n, herm=hermitian, cplx=cplx, dyadic=(fmt != "sympy"), density=1.0))
     return dict(sub=sub, nparam=nparam, N=N, H=H, hermitian=hermitian, fully=fully, fmt=fmt)
+
+
+def degenerate_case(rng, *, hermitian=True, fmt="dense", pattern=(1, 0, 0), max_params=2, N=3, extra_block=False, default_full=False):
+    """A fully diagonalised block (tuple form, or the single-block default) whose UNSORTED diagonal has a degenerate
+    level: pattern (1,0,0) -> sort permutation is a 3-cycle, (0,1,0) / (1,0,1,0) -> degenerate members not adjacent."""
+    lv = list(pattern)
+    sub = [0] * len(lv)
+    if extra_block and not default_full:
+        rest = sorted({0, 1, 2} - set(lv))
+        if rest:
+            sub += [1] * rng.randint(1, 2)
+            lv += [rest[0]] * (len(sub) - len(lv))
+    E = [G(Fr(v)) for v in lv]
+    nparam = rng.randint(1, max_params)
+    H = {key((0,) * nparam): gq.enc(diag_matrix(E))}
+    cplx = rng.random() < 0.5
+    n = len(sub)
+    for o in [o for o in gq.orders_upto(nparam, 2) if sum(o) >= 1]:
+        if sum(o) == 1 or rng.random() < 0.25:
+            H[key(o)] = gq.enc(rand_matrix(rng, n, herm=hermitian, cplx=cplx, dyadic=(fmt != "sympy"), density=1.0))
+    return dict(sub=sub, nparam=nparam, N=N, H=H, hermitian=hermitian, fully=(None if default_full else [0]), fmt=fmt)
+
+
+NSPECIAL = 10
+
+
+def special_case(rng, k, *, hermitian=True, N=3, max_params=2):
+    """The k-th of NSPECIAL structured families that every run must contain (each one was needed to expose a
+    seeded change; random_case reaches them only with moderate probability)."""
+    k = k % NSPECIAL
+    if k == 0:
+        return offset_case(rng, hermitian=hermitian, fmt="dense", max_params=max_params, N=N, mode=0.5)    # tuple
+    if k == 1:
+        return offset_case(rng, hermitian=hermitian, fmt="dense", max_params=max_params, N=N, mode=0.1)    # default
+    if k == 2:
+        return offset_case(rng, hermitian=hermitian, fmt="sparse", max_params=max_params, N=N, mode=0.9)   # mask
+    if k == 3:
+        return mask_case(rng, hermitian=hermitian, max_params=max_params, N=N)
+    if k == 4:
+        return degenerate_case(rng, hermitian=hermitian, fmt="dense", pattern=(2, 0, 0, 1), max_params=max_params, N=N, default_full=True)
+    if k == 5:
+        return degenerate_case(rng, hermitian=hermitian, fmt="sparse", pattern=(1, 0, 0), max_params=max_params, N=N, extra_block=True)
+    if k == 6:
+        return degenerate_case(rng, hermitian=hermitian, fmt="dense", pattern=(0, 1, 0), max_params=max_params, N=N, extra_block=True)
+    if k == 7:
+        return degenerate_case(rng, hermitian=hermitian, fmt="sympy", pattern=(1, 0, 1, 0), max_params=1, N=N, default_full=True)
+    if k == 8:
+        return degenerate_case(rng, hermitian=hermitian, fmt="sparse", pattern=(0, 2, 0), max_params=max_params, N=N, default_full=True)
+    return degenerate_case(rng, hermitian=hermitian, fmt="dense", pattern=(2, 1, 1), max_params=max_params, N=N, extra_block=True)
 
 
 def mask_case(rng, *, hermitian=True, max_params=2, N=3):
@@ -213,6 +262,13 @@ def random_case(rng, *, hermitian=True, fmt=None, max_blocks=3, max_size=3, max_
                 if len(idx) >= 2 and rng.random() < 0.7:
                     for i, v in zip(idx, cand):
                         E[i] = G(Fr(v + 100 * (b + 1)), E[i].im)
+        if exactfloat:
+            # unsorted diagonal with a degenerate level: (hi, lo, lo) - the sort permutation is a 3-cycle
+            for b in (fully if fully else [0]):
+                idx = [i for i in range(len(sub)) if sub[i] == b]
+                vals = sorted({E[i].re for i in idx})
+                if len(idx) >= 3 and len(vals) >= 2 and rng.random() < 0.6:
+                    E[idx[0]], E[idx[1]], E[idx[2]] = G(vals[-1], E[idx[0]].im), G(vals[0], E[idx[1]].im), G(vals[0], E[idx[2]].im)
     elif allow_mask and mode < 0.6:
         fully = {}
         pool = blocks[1:] if (nb >= 2 and rng.random() < 0.5) else blocks   # often NOT the leading blocks
